@@ -61,6 +61,34 @@ def policies_for(pid):
     return ["ta"] if pid in ("C01", "C03") else ["balloons"] if pid == "C02" else (["ta", "balloons"] if both else ["ta"])
 
 
+# further design checks: (module, cfg, what TLC must report: None = pass, else the invariant/property that must be violated)
+DESIGN_EXTRA = {
+    "C09": [("MC_BalloonsReconf", "MC_BalloonsReconf_none.cfg", None),
+            ("MC_BalloonsReconf", "MC_BalloonsReconf_leak_balloonless.cfg", "Inv_StoppedHoldsNothing"),     # F-C09-5 shape
+            ("MC_BalloonsReconf", "MC_BalloonsReconf_readmit_exited.cfg", "Inv_StoppedHoldsNothing"),       # F-C09-1 shape
+            ("MC_BalloonsReconf", "MC_BalloonsReconf_reach.cfg", "Goal_BalloonlessAlive")],                 # reachability
+    "C13": [("MC_BalloonsReconf", "MC_BalloonsReconf_none.cfg", None)],
+}
+
+
+def design_extras(ctx, pid):
+    """Design specs beyond the one in DESIGN[pid]: the code-as-it-is configuration must pass, each named deviation (a defect
+    class found on the real code) and each reachability goal must be reported by TLC -- a miss means the model lost its
+    teeth and makes the run inconclusive."""
+    out = []
+    todo = list(DESIGN_EXTRA.get(pid, []))
+    if not ctx.quick and pid in ("C09", "C13"):
+        todo.append(("MC_BalloonsReconf", "MC_BalloonsReconf_big.cfg", None))
+    for i, (mod, cfg, must) in enumerate(todo):
+        r = vlib.tlc(mod, cfg, ctx.path("mcx%d" % i), workers=4, timeout=600)
+        if must is None and not r["ok"]:
+            raise vlib.Inconclusive("design model check %s did not pass: violated=%s error=%s\n%s" % (cfg, r["violated"], r["error"], r["out"][-2000:]))
+        if must is not None and r["violated"] != must:
+            raise vlib.Inconclusive("design model check %s: TLC must report %s, got violated=%s error=%s" % (cfg, must, r["violated"], r["error"]))
+        out.append({"config": cfg, "expect": must or "pass", "distinct": r.get("distinct"), "generated": r.get("generated")})
+    return out
+
+
 def regress_histories(pid):
     """Histories kept from earlier findings (/verif/regress/<pid>/*.json): replayed in every run, so that a repaired
     defect is reported again if it ever returns."""
@@ -271,6 +299,8 @@ def run(ctx):
     if not mc["ok"]:
         raise vlib.Inconclusive("design model check did not pass: violated=%s error=%s\n%s" % (mc["violated"], mc["error"], mc["out"][-3000:]))
 
+    extra_design = design_extras(ctx, pid)
+
     # 2./3. drivers + replay on the real code
     hs = gen_histories(ctx, binp, pid)
     tp = l2gen.run_histories(binp, hs, ctx.path("run"), timeout=1200 if ctx.quick else 3000)
@@ -320,6 +350,8 @@ def run(ctx):
                    "abstract states reached by the real code" % pid,
            "exercised": {k: v for k, v in st.items() if k != "distinct_states"}, "predicates": sorted(PREDS[pid]),
            "drift_steps": drift, "samples": sample or [{"note": "no successful create in trace"}], "exhaustive": False}
+    if extra_design:
+        cov["design_extra"] = extra_design
     if pid == "C14":    # event sequences on the side plugins (memory-qos, memtierd, sgx-epc): engines/sideplug.py
         sv, cov["side_plugins"] = sideplug.run_side(ctx)
         mine = mine + sv
